@@ -3,6 +3,7 @@ import Driver.Run
 import Driver.Gen
 import Driver.Session
 import Driver.Exec
+import Driver.Value
 open Btcdeb
 
 namespace Driver
@@ -72,6 +73,8 @@ def dispatch (spec : Bool) (line : String) : String :=
   | "RUN" :: a => cmdRun spec false a
   | "RUNV" :: a => cmdRun spec true a
   | "EXEC" :: a => cmdExec spec a
+  | "BTCC" :: a => cmdBtcc spec a
+  | "VALUE" :: a => cmdValue a
   | ["FLAGS", h] =>
     match ofHex h with
     | none => "bad-op"
